@@ -130,6 +130,35 @@ Proof.
   rewrite sp_ders_eq_formal_derivative by assumption. apply sp_Nd_taylor.
 Qed.
 
+(** the same for the spline itself: as long as x and x+h are in the same span, the der = 1 entry point is
+    the derivative of the der = 0 entry point:
+       S(x+h) = S(x) + h*S'(x) + h^2 * sum_j c_j R_j(x,h) *)
+Notation sumr := (Sums.sumr F 0 (spadd K)).
+Lemma sp_sumr_lin3 (c A B R : nat -> F) h : forall n a,
+  sumr a n (fun j => c j * (A j + h * B j + h * h * R j))
+  = sumr a n (fun j => c j * A j) + h * sumr a n (fun j => c j * B j) + h * h * sumr a n (fun j => c j * R j).
+Proof. induction n as [|n IH]; intros a; cbn [Sums.sumr]; [ring|]. rewrite IH. ring. Qed.
+
+Theorem sp_eval_taylor knots degree coeffs x h s : sp_sorted F K knots -> sp_span_ok F K knots s ->
+  sp_nu_find_span F K knots degree x = SpOk s -> sp_nu_find_span F K knots degree (x + h) = SpOk s ->
+  (1 <= degree)%nat -> (degree <= s)%nat -> (s + degree < length knots)%nat -> (s < length coeffs)%nat ->
+  exists v0 v1 d,
+    sp_nu_eval_1d_scalar F K x knots degree coeffs 0 = SpOk v0 /\
+    sp_nu_eval_1d_scalar F K (x + h) knots degree coeffs 0 = SpOk v1 /\
+    sp_nu_eval_1d_scalar F K x knots degree coeffs 1 = SpOk d /\
+    v1 = v0 + h * d + h * h * sumr 0 (S degree) (fun j => nth (s - degree + j) coeffs 0
+                                                   * sp_RNd knots s x h degree (s - degree + j)).
+Proof.
+  intros Hs Hp E0 E1 Hd1 Hd Hl Hc.
+  rewrite (sp_nu_eval_1d_scalar_spec F K HK knots degree coeffs x 0 s) by (try assumption; lia).
+  rewrite (sp_nu_eval_1d_scalar_spec F K HK knots degree coeffs (x + h) 0 s) by (try assumption; lia).
+  rewrite (sp_nu_eval_1d_scalar_spec F K HK knots degree coeffs x 1 s) by (try assumption; lia).
+  do 3 eexists. split; [reflexivity|]. split; [reflexivity|]. split; [reflexivity|].
+  cbn [sp_basis_of].
+  rewrite <- (sp_sumr_lin3 (fun j => nth (s - degree + j) coeffs 0)).
+  apply Sums.sumr_ext. intros j Hj. f_equal. apply sp_basis_taylor; try assumption; lia.
+Qed.
+
 (* ---------------------------------------------------------------------------------------- *)
 (** * uniform cubic: polynomials in the offset as coefficient lists *)
 
